@@ -637,8 +637,22 @@ impl Session {
             || rx_plain.get_dst_unicast_nodeid().is_none()
             || rx_plain.get_dst_unicast_nodeid() == Some(self.local_nodeid);
 
+        // A group session stands for ONE group (its group ID is the subject the access
+        // control and the endpoint selection of its messages are evaluated with), while
+        // several groups may share the operational key - and hence the group session ID -
+        // it was found with: a groupcast message for another group is not for this session
+        // (unicast-addressed group control messages name no group).
+        let group_matches = match self.mode {
+            SessionMode::Group { group_id, .. } => rx_plain
+                .get_dst_groupcast_nodeid()
+                .map(|dst_group_id| dst_group_id == group_id)
+                .unwrap_or(true),
+            _ => true,
+        };
+
         nodeid_matches
             && dest_nodeid_matches
+            && group_matches
             && self.local_sess_id == rx_plain.sess_id
             // Compare canonically: a dual-stack socket may report a peer as
             // `::ffff:a.b.c.d` on receive while the session stored the plain
